@@ -104,10 +104,13 @@ def run_case(c):
             dm.run(q)
             return np.array(dm.dynamical_matrix)
 
+        # (floor of the scale: the largest |D| over all requested q - at a q where D itself vanishes, e.g. a chain-like model at an integer component,
+        # |D| and |dD| are rounding noise and a scale taken from them alone compares noise with noise: sweep after round 6, seed 2)
+        d_floor = max(np.abs(D(q)).max() for q in qs + [q_out])
         for q in qs + [q_out]:
             ddm.run(q, lang=c["lang"])
             dD = np.array(ddm.d_dynamical_matrix)
-            scale = max(np.abs(dD).max(), np.abs(D(q)).max())
+            scale = max(np.abs(dD).max(), np.abs(D(q)).max(), d_floor)
             if np.abs(dD).max() > 1e-6 * np.abs(D(q)).max():
                 nontrivial = True
             for j in range(3):
